@@ -44,6 +44,13 @@ func verifyFunction(P *Program, key string) (res *FuncResult) {
 	x := newExec(P, bv)
 	x.root = fn
 	x.rootCtr = ctr
+	if ctr != nil {
+		for _, l := range ctr.Lemmas {
+			if l == "bvarith" {
+				x.bvArith = true
+			}
+		}
+	}
 	defer func() {
 		res.GenSecs = time.Since(t0).Seconds()
 		res.Obls = x.obls
@@ -169,6 +176,7 @@ func cmdVerify(args []string) {
 	verbose := fs.Bool("v", false, "list every obligation")
 	par := fs.Int("par", 8, "parallel obligations")
 	fs.Parse(args)
+	thoroughTier = *thorough
 	t0 := time.Now()
 	P, err := loadProgram(*repo, *pkg, *ext)
 	if err != nil {
